@@ -102,9 +102,24 @@ func ringHistory[T comparable](cc *run.Case, typ string, capacity int, alphabet 
 
 // ---- Bst: multiset model in lock-step + structural walk ----
 
+// bstKey is a tree key read through reflection, kept exact: integer keys as
+// int64 (a float64 would merge neighbours above 2^53), float keys as float64.
+type bstKey struct {
+	I     int64
+	F     float64
+	IsInt bool
+}
+
+func (a bstKey) less(b bstKey) bool {
+	if a.IsInt {
+		return a.I < b.I
+	}
+	return a.F < b.F
+}
+
 // walkBst does an in-order traversal of the live tree through reflection
 // (unexported fields are readable, not settable) and returns the keys.
-func walkBst(b any) (keys []float64, ok bool) {
+func walkBst(b any) (keys []bstKey, ok bool) {
 	root := reflect.ValueOf(b).Elem().FieldByName("root")
 	ok = true
 	depth := 0
@@ -122,15 +137,23 @@ func walkBst(b any) (keys []float64, ok bool) {
 		rec(e.FieldByName("left"))
 		v := e.FieldByName("value")
 		if v.CanInt() {
-			keys = append(keys, float64(v.Int()))
+			keys = append(keys, bstKey{I: v.Int(), IsInt: true})
 		} else {
-			keys = append(keys, v.Float())
+			keys = append(keys, bstKey{F: v.Float()})
 		}
 		rec(e.FieldByName("right"))
 		depth--
 	}
 	rec(root)
 	return
+}
+
+func keyOf[T helper.Number](v T) bstKey {
+	rv := reflect.ValueOf(v)
+	if rv.CanInt() {
+		return bstKey{I: rv.Int(), IsInt: true}
+	}
+	return bstKey{F: rv.Float()}
 }
 
 type bstStep struct {
@@ -210,17 +233,17 @@ func bstRun[T helper.Number](alphabet []T, steps []bstStep, walkEvery int) strin
 			if len(keys) != size {
 				return fmt.Sprintf("after %s: tree holds %d nodes, multiset holds %d elements", desc, len(keys), size)
 			}
-			if !sort.Float64sAreSorted(keys) {
+			if !sort.SliceIsSorted(keys, func(a, b int) bool { return keys[a].less(keys[b]) }) {
 				return fmt.Sprintf("after %s: in-order traversal is not sorted: %v", desc, keys)
 			}
 			// every model element present with multiplicity
-			cnt := map[float64]int{}
+			cnt := map[bstKey]int{}
 			for _, k := range keys {
 				cnt[k]++
 			}
 			for k, c := range model {
-				if cnt[float64(k)] != c {
-					return fmt.Sprintf("after %s: tree holds %d copies of %v, multiset holds %d", desc, cnt[float64(k)], k, c)
+				if cnt[keyOf(k)] != c {
+					return fmt.Sprintf("after %s: tree holds %d copies of %v, multiset holds %d", desc, cnt[keyOf(k)], k, c)
 				}
 			}
 		}
@@ -332,11 +355,12 @@ func c17(ctx *run.Ctx) {
 	// sign-of-difference comparison overflows for these.
 	i8 := []int8{-128, -127, -100, -1, 0, 1, 100, 126, 127}
 	i16 := []int16{math.MinInt16, -30000, -1, 0, 1, 30000, math.MaxInt16}
-	i32 := []int32{math.MinInt32, -2000000000, -1, 0, 1, 2000000000, math.MaxInt32}
-	i64 := []int64{math.MinInt64, -9000000000000000000, -1, 0, 1, 9000000000000000000, math.MaxInt64}
-	in := []int{math.MinInt, -9000000000000000000, -1, 0, 1, 9000000000000000000, math.MaxInt}
-	f32 := []float32{-math.MaxFloat32, -1e30, -1.5, 0, math.SmallestNonzeroFloat32, 1.5, 1e30, math.MaxFloat32}
-	f64 := []float64{-math.MaxFloat64, -1e300, -1.5, 0, math.SmallestNonzeroFloat64, 1.5, 1e300, math.MaxFloat64}
+	i32 := []int32{math.MinInt32, math.MinInt32 + 1, -2000000000, -1, 0, 1, 16777216, 16777217, 2000000000, math.MaxInt32 - 1, math.MaxInt32}
+	// ... including neighbours that collapse when converted to float64 (> 2^53).
+	i64 := []int64{math.MinInt64, math.MinInt64 + 1, -9000000000000000000, -(1 << 53) - 1, -(1 << 53), -1, 0, 1, 1 << 53, (1 << 53) + 1, (1 << 53) + 2, 9000000000000000000, math.MaxInt64 - 2, math.MaxInt64 - 1, math.MaxInt64}
+	in := []int{math.MinInt, math.MinInt + 1, -9000000000000000000, -1, 0, 1, 1 << 53, (1 << 53) + 1, 9000000000000000000, math.MaxInt - 1, math.MaxInt}
+	f32 := []float32{-math.MaxFloat32, -1e30, -1.5, 0, math.SmallestNonzeroFloat32, 1.5, math.Nextafter32(1.5, 2), 1e30, math.Nextafter32(1e30, 2e30), math.MaxFloat32}
+	f64 := []float64{-math.MaxFloat64, -1e300, -1.5, 0, math.SmallestNonzeroFloat64, 1.5, math.Nextafter(1.5, 2), 1e300, math.Nextafter(1e300, 2e300), math.MaxFloat64}
 	small8 := []int8{-3, -2, -1, 0, 1, 2, 3, 4}
 	smallf := []float64{-1.5, -0.5, 0, 0.25, 0.5, 1, 2, 3}
 
